@@ -138,7 +138,7 @@ func C20(run *Run) {
 			for rep := 0; rep < reps; rep++ {
 				kinds := []string{"check:server", "check:server:v2", "batch", "lo:classic", "lo:weighted", "lo:pipeline", "stream", "lu", "expand"}
 				if scripted { // the default engine with each strategy forced: wide recursive level, two-type tupleset
-					kinds = []string{"check:v1:recursive", "check:v1:weight2", "check:v1:default", "check:server"}
+					kinds = []string{"check:v1:recursive", "check:v1:weight2", "check:v1:default", "check:server", "check:server:v2"}
 				}
 				kind := kinds[r.Intn(len(kinds))]
 				if kind == "lo:pipeline" && pipelineHung {
